@@ -37,6 +37,7 @@ extern "C" {
 #include "upipe/ubase.h"
 #include "upipe/urefcount.h"
 #include "upipe/ulifo.h"
+#include "upipe/uverif.h"
 
 /** @hidden */
 struct upool;
@@ -114,8 +115,16 @@ static inline void upool_release(struct upool *upool)
 static inline void *upool_alloc_internal(struct upool *upool)
 {
     void *obj = ulifo_pop(&upool->lifo, void *);
+#ifdef UPIPE_VERIF
+    bool uverif_from_pool = obj != NULL;
+#endif
     if (unlikely(obj == NULL))
         obj = upool->alloc_cb(upool);
+#ifdef UPIPE_VERIF
+    if (obj != NULL)
+        UVERIF_POOL(uverif_from_pool ? UVERIF_POOL_GET : UVERIF_POOL_NEW,
+                    upool, obj);
+#endif
     if (obj != NULL)
         upool_use(upool);
     return obj;
@@ -136,8 +145,16 @@ static inline void *upool_alloc_internal(struct upool *upool)
  */
 static inline void upool_free(struct upool *upool, void *obj)
 {
+    UVERIF_POOL(UVERIF_POOL_PARK, upool, obj);
     if (unlikely(!ulifo_push(&upool->lifo, obj)))
+#ifdef UPIPE_VERIF
+    {
+        UVERIF_POOL(UVERIF_POOL_PARK_FAILED, upool, obj);
+#endif
         upool->free_cb(upool, obj);
+#ifdef UPIPE_VERIF
+    }
+#endif
     upool_release(upool);
 }
 
@@ -149,7 +166,14 @@ static inline void upool_vacuum(struct upool *upool)
 {
     void *obj;
     while ((obj = ulifo_pop(&upool->lifo, void *)) != NULL)
+#ifdef UPIPE_VERIF
+    {
+        UVERIF_POOL(UVERIF_POOL_VACUUM, upool, obj);
+#endif
         upool->free_cb(upool, obj);
+#ifdef UPIPE_VERIF
+    }
+#endif
 }
 
 /** @This empties and cleans up a upool.
